@@ -42,6 +42,10 @@ def main():
     head = sh("git -C /repo rev-parse --short HEAD")[1].strip()
     todo = [os.path.basename(os.path.dirname(p)) for p in sorted(glob.glob("/verif/seeded/*/patch.rebased.diff"))]
     todo = [n for n in todo if n not in results or results[n].get("repo_head") != head]
+    if os.environ.get("ONLY"):
+        # re-confirm just these (comma separated) instead of everything that was measured on an older HEAD
+        only = os.environ["ONLY"].split(",")
+        todo = [n for n in todo if n in only]
     lock = threading.Lock()
 
     def lane(l):
